@@ -153,10 +153,11 @@ func sharedKey(h string) [32]byte {
 }
 
 // cases:
-//   enc <shared> <role:srv|cli> <mode> <msg>...   hc session of <role> encrypts the messages; the reference framer
-//                                                 opens them; hc's peer session decrypts them
-//   seal <shared> <role> <msg>...                 reference framer only (honest stream of <role>'s write direction)
-//   dec <shared> <role> <stream>                  hc session of <role> runs its receive loop over <stream>
+//
+//	enc <shared> <role:srv|cli> <mode> <msg>...   hc session of <role> encrypts the messages; the reference framer
+//	                                              opens them; hc's peer session decrypts them
+//	seal <shared> <role> <msg>...                 reference framer only (honest stream of <role>'s write direction)
+//	dec <shared> <role> <stream>                  hc session of <role> runs its receive loop over <stream>
 func runFrame(id string, toks []string) (res string) {
 	defer func() {
 		if r := recover(); r != nil {
@@ -210,6 +211,14 @@ func runFrame(id string, toks []string) (res string) {
 		}
 		var allWire, allMsgs []byte
 		wireOK := true
+		// a third and a fourth receiver get every message through readers that deliver less than they are asked for
+		// (half of it / one byte per Read), as sockets and pipes do
+		p3, p4 := newSess(peer[role], k), newSess(peer[role], k)
+		if ctr != 0 {
+			setCounters(p3, ctr, ctr)
+			setCounters(p4, ctr, ctr)
+		}
+		shortReads := ""
 		var pending []io.Reader
 		if lazy {
 			for _, m := range toks[4:] {
@@ -247,6 +256,20 @@ func runFrame(id string, toks []string) (res string) {
 				out = append(out, fmt.Sprintf("r%d=fail", i))
 			}
 			ctr += uint64((len(msg) + 1023) / 1024)
+			for name, pr := range map[string]io.Reader{"half": iotest.HalfReader(bytes.NewReader(w)), "one-byte": iotest.OneByteReader(bytes.NewReader(w))} {
+				sess := p3
+				if name == "one-byte" {
+					sess = p4
+				}
+				if len(w) == 0 || shortReads != "" {
+					continue
+				}
+				if d3, err := sess.Decrypt(pr); err != nil {
+					shortReads = fmt.Sprintf("%s-reader:message-%d-error", name, i)
+				} else if b3, _ := ioutil.ReadAll(d3); !bytes.Equal(b3, msg) {
+					shortReads = fmt.Sprintf("%s-reader:message-%d-differs", name, i)
+				}
+			}
 			dr, err := p.Decrypt(bytes.NewBuffer(w))
 			if err != nil {
 				out = append(out, fmt.Sprintf("d%d=err", i))
@@ -274,6 +297,9 @@ func runFrame(id string, toks []string) (res string) {
 			if bad != "" {
 				out = append(out, "stream="+bad)
 			}
+		}
+		if shortReads != "" {
+			out = append(out, "shortreads="+shortReads)
 		}
 		return strings.Join(out, " ")
 	case "sealc":
